@@ -501,6 +501,87 @@ def check_dict_siblings(ck, prog):
               a[0], a[2], a[1], b_[0], b_[2], b_[1]), key="DICTSIB:get-vs-repeat")
 
 
+def check_dict_fresh(ck, prog, rule="C03-DICTFRESH"):
+    """dict->full (how much history is valid) is derived from dict->pos.  In the three helpers that append to the
+    dictionary (dict_put, dict_repeat, dict_write) the derivation has to come AFTER the last change of dict->pos in the
+    call, otherwise `full` lags behind the data just written and a valid match into it is rejected as
+    `distance >= full` (LZMA_DATA_ERROR on a valid stream)."""
+    ck.rule(rule, "dict->full is recomputed from dict->pos after the last modification of dict->pos in each helper")
+    n = 0
+    for fn in ("dict_put", "dict_repeat", "dict_write"):
+        f = None
+        for cand in prog.functions.get(fn, []):
+            if cand.blocks:
+                f = cand
+        if f is None:
+            raise AnalysisBroken("%s not found" % fn)
+        ck.saw_function(f)
+
+        def writes_pos(e):
+            for (l, r, op, nd) in ex.writes(e):
+                if ex.show(l) == "dict->pos":
+                    return True
+            for x in ex.walk(e):
+                if x.get("k") == "un" and x.get("op") in ("pre++", "post++", "pre--", "post--") and ex.show(x["e"]) == "dict->pos":
+                    return True
+                if x.get("k") == "un" and x.get("op") == "&" and ex.show(x["e"]) == "dict->pos":
+                    return True
+            return False
+        posb = {}
+        for b, i, e in f.iter_elems():
+            if writes_pos(e):
+                posb.setdefault(b.id, []).append(i)
+        stores = [(b, i, nd) for b, i, e in f.iter_elems() for (l, r, op, nd) in ex.writes(e)
+                  if ex.show(l) == "dict->full" and r is not None and "dict->pos" in ex.show(r)]
+        if not stores or not posb:
+            raise AnalysisBroken("%s: no `dict->full = ... dict->pos ...` / no modification of dict->pos" % fn)
+        bad = None
+        for (b, i, nd) in stores:
+            if any(j > i for j in posb.get(b.id, ())):
+                bad = nd
+                continue
+            later = cfg.reachable(f, [y for y in b.succs if y is not None])
+            if any(x in later for x in posb):
+                bad = nd
+        n += 1
+        ck.ob(rule, fn, bad is None, common.where(f, bad or stores[0][2]),
+              "%s: dict->full is derived after the last change of dict->pos" % fn if bad is None else
+              "%s(): `dict->full = dict->pos - ...` (line %s) is computed BEFORE dict->pos is advanced in the same call: the "
+              "bytes just written are not counted as history, and a later match that refers to them is rejected as "
+              "corrupt" % (fn, ex.line(bad)), key="DICTFRESH:" + fn)
+    return n
+
+
+def check_fastslow(ck, prog, rule="C03-FASTSLOW"):
+    """lzma_decode() contains the symbol decoder twice (the fast loop and the resumable switch).  The literal
+    probability table is selected by the macro literal_subcoder(probs, lc, mask, pos, prev_byte): all expansions in the
+    function must be the same expression (full dictionary position, previous byte), otherwise the two copies decode
+    different streams and the result depends on which copy handled the symbol (i.e. on input slicing)."""
+    ck.rule(rule, "the fast and the resumable copy of the LZMA symbol decoder select the literal coder identically")
+    f = prog.fn("lzma_decode", "lzma_decoder.c")
+    ck.saw_function(f)
+    exps = []
+    for b, i, e in f.iter_elems():
+        for (l, r, op, nd) in ex.writes(e):
+            r0 = ex.deref(r) if r is not None else None
+            if r0 is not None and r0.get("om") == "literal_subcoder" and r0.get("m") == "literal_subcoder":
+                exps.append((r0, nd))
+    if len(exps) < 2:
+        raise AnalysisBroken("lzma_decode: fewer than two expansions of literal_subcoder found")
+    ref = exps[0][0]
+    bad = [nd for (r0, nd) in exps[1:] if not ex.same(r0, ref)]
+    uses_pos = all(any(x.get("k") == "mem" and x.get("f") == "pos" and x.get("rec") == "lzma_dict" for x in ex.walk(r0))
+                   for (r0, nd) in exps)
+    ok = not bad and uses_pos
+    ck.ob(rule, "literal_subcoder", ok, common.where(f, bad[0] if bad else exps[0][1]),
+          "%d expansions of literal_subcoder in lzma_decode are identical and use dict.pos" % len(exps) if ok else
+          "lzma_decode(): the expansions of literal_subcoder differ: `%s` (line %s) vs `%s` (line %s): the fast loop and the "
+          "resumable path pick different literal probability sets (for lp > pb), so a stream decodes differently "
+          "depending on which path handles a literal" % (
+              ex.show(ref)[:90], ex.line(exps[0][1]), ex.show((bad and [r0 for (r0, nd) in exps if nd is bad[0]][0]) or ref)[:90],
+              ex.line(bad[0]) if bad else "?"), key="FASTSLOW:literal_subcoder")
+
+
 def run(ck):
     ck.explanation = (
         "Exhaustive finite-domain abstract evaluation of the LZMA2 control-byte decision and of the pure "
@@ -519,6 +600,9 @@ def run(ck):
     # a valid stream is accepted however the input is sliced: resumable decoders persist every live local
     from . import C06
     C06.check_resume(ck, prog, RULE="C03-RESUME", only_files={"lzma_decoder.c", "lzma2_decoder.c", "lz_decoder.c", "block_decoder.c", "stream_decoder.c", "index_decoder.c", "index_hash.c", "vli_decoder.c", "stream_decoder_mt.c"}, floor=8)
+    C06.check_seqlabel(ck, prog, rule="C03-SEQLABEL")
+    check_dict_fresh(ck, prog)
+    check_fastslow(ck, prog)
     # a dictionary reset (LZMA2 control 0x01 / >= 0xE0 in the middle of a stream) must forget everything that the
     # coding so far left in the window bookkeeping
     from . import reinit
